@@ -423,7 +423,9 @@ func WrapURI2(str string) *UriValue {
 
 func (u *UriValue) Equals(other interface{}, guard px.Guard) bool {
 	if ou, ok := other.(*UriValue); ok {
-		return *u.URL() == *ou.URL()
+		// not *u.URL() == *ou.URL(): that compares the User field by pointer, so that two
+		// separately parsed URIs with a userinfo part were never equal
+		return u.URL().String() == ou.URL().String()
 	}
 	return false
 }
